@@ -301,13 +301,14 @@ Proof.
   - inversion Hn as [|? ? Hc Ht]; subst. cbn [t_feed]. unfold t_byte.
     destruct ((c =? CR) || (c =? LF)) eqn:Eterm.
     + destruct ((c =? CR) || negb pcr) eqn:Eemit.
-      * apply IH in H; auto; [|constructor|intros _; reflexivity].
+      * apply IH in H; auto; try solve [constructor]; try (intros _; reflexivity).
         destruct H as (new & Hl & Hf & Hc' & Hp').
+        rewrite cstr_id in Hl by auto.
         exists ((inc ++ cur) :: new). rewrite Hl, <- app_assoc. split; [reflexivity|].
-        cbn [app] in Hf. rewrite Hf. rewrite cstr_id by auto. auto.
+        cbn [app] in Hf. rewrite Hf. auto.
       * assert (pcr = true) by (destruct pcr; auto; rewrite orb_true_r in Eemit; discriminate).
         rewrite (Hp H0) in *. rewrite app_nil_r.
-        apply IH in H; auto; [|intros _; reflexivity].
+        apply IH in H; auto; try solve [constructor]; try (intros _; reflexivity).
         destruct H as (new & Hl & Hf & Hc' & Hp').
         exists new. split; auto. rewrite app_nil_r in Hf.
         assert (Ecr : (c =? CR) = false) by (destruct (c =? CR); auto; discriminate).
